@@ -7,6 +7,7 @@
   and only if its state is SUCCEEDED; the response has one position per request (one for an empty
   request); and an injected fault on the path of a position leaves it without a signature.
 -/
+import Dirk.Props.FactsResults
 import Dirk.Lemmas.Run
 
 namespace Dirk
